@@ -275,6 +275,27 @@ func (d *flatDec) dec(t types.Type) Value {
 			a[i] = d.dec(ut.Elem())
 		}
 		return a
+	case *types.Interface:
+		// only IPLD links are supported: dynamic type cidlink.Link
+		if ut.NumMethods() > 0 && ut.Method(0).Pkg() != nil && ut.Method(0).Pkg().Path() == "github.com/ipld/go-ipld-prime/datamodel" {
+			b := d.byte()
+			if d.fail != "" {
+				return Iface{}
+			}
+			if !ex.branch(mkCmp(OpULe, b, byteConst(1)), "codec-link") {
+				d.fail = "invalid link tag"
+				return Iface{}
+			}
+			if ex.branch(mkEq(b, byteConst(0)), "codec-nil-link") {
+				return Iface{}
+			}
+			lt := ex.p.namedType("github.com/ipld/go-ipld-prime/linking/cid", "Link")
+			if lt == nil {
+				ex.unsupported("model codec: cidlink.Link not loaded")
+			}
+			v := d.dec(lt)
+			return Iface{t: lt, v: v}
+		}
 	}
 	ex.unsupported("model codec: cannot decode %v", t)
 	return nil
@@ -286,6 +307,7 @@ func (ex *Exec) codecError(msg string) Value {
 
 type protoState struct {
 	goPtrType types.Type // *T
+	self      *nativeObj
 }
 type builderState struct {
 	proto *protoState
@@ -298,6 +320,7 @@ type nodeState struct {
 func (ex *Exec) mkProto(goPtrType types.Type) *nativeObj {
 	ps := &protoState{goPtrType: goPtrType}
 	o := &nativeObj{kind: "bindnode.Prototype", state: ps}
+	ps.self = o
 	o.methods = map[string]func(ex *Exec, args []Value) Value{
 		"Type": func(ex *Exec, args []Value) Value {
 			return nativeIface(&nativeObj{kind: "schema.Type", methods: map[string]func(ex *Exec, args []Value) Value{}, state: ps})
@@ -310,7 +333,7 @@ func (ex *Exec) mkProto(goPtrType types.Type) *nativeObj {
 					if bs.built == nil {
 						ex.throwMsg(nil, 0, "model bindnode: Build on empty builder")
 					}
-					return ex.mkNode(bs.built.(Iface))
+					return ex.mkNode(bs.built.(Iface), ps.self)
 				},
 				"Reset": func(ex *Exec, args []Value) Value { bs.built = nil; return nil },
 			}
@@ -321,13 +344,16 @@ func (ex *Exec) mkProto(goPtrType types.Type) *nativeObj {
 	return o
 }
 
-func (ex *Exec) mkNode(ptr Iface) Value {
+func (ex *Exec) mkNode(ptr Iface, proto *nativeObj) Value {
 	ns := &nodeState{ptr: ptr}
 	n := &nativeObj{kind: "bindnode.Node", state: ns}
 	n.methods = map[string]func(ex *Exec, args []Value) Value{
 		"Representation": func(ex *Exec, args []Value) Value { return nativeIface(n) },
 		"Type":           func(ex *Exec, args []Value) Value { return Iface{} },
 		"Prototype": func(ex *Exec, args []Value) Value {
+			if proto != nil {
+				return nativeIface(proto)
+			}
 			return nativeIface(ex.mkProto(ptr.t))
 		},
 		"Kind": func(ex *Exec, args []Value) Value { return mkConst(8, 2) }, // datamodel.Kind_Map
@@ -366,7 +392,15 @@ func init() {
 			return nativeIface(ex.mkProto(itf.t))
 		})
 		p.reg(ipld+"/node/bindnode.Wrap", func(ex *Exec, fr *Frame, args []Value) Value {
-			return ex.mkNode(args[0].(Iface))
+			var proto *nativeObj
+			if ti, ok := args[1].(Iface); ok {
+				if no, ok := ti.v.(*nativeObj); ok {
+					if ps, ok := no.state.(*protoState); ok {
+						proto = ps.self
+					}
+				}
+			}
+			return ex.mkNode(args[0].(Iface), proto)
 		})
 		p.reg(ipld+"/node/bindnode.Unwrap", func(ex *Exec, fr *Frame, args []Value) Value {
 			itf := args[0].(Iface)
@@ -431,9 +465,57 @@ func init() {
 		}
 		p.reg("("+ipld+"/codec/dagcbor.DecodeOptions).Decode", optDecode)
 		p.reg("("+ipld+"/codec/dagjson.DecodeOptions).Decode", optDecode)
+		// LinkSystem.Load: storage read (+ hash verification unless trusted); the
+		// decoded node is opaque (its content is not interpreted)
+		p.reg("(*"+ipld+"/linking.LinkSystem).Load", func(ex *Exec, fr *Frame, args []Value) Value {
+			lsT := ex.p.namedType(ipld+"/linking", "LinkSystem")
+			ls := (*ex.nonNil(fr, args[0])).(Struct)
+			ro := ex.getField(ls, lsT, "StorageReadOpener")
+			if isNil, _ := isNilValue(ro); isNil {
+				return Tuple{Iface{}, ex.newErrorString("no storage configured for reading")}
+			}
+			res := ex.call(fr, fr.callPos, ro, []Value{args[1], args[2]}).(Tuple)
+			if e := res[1].(Iface); e.t != nil {
+				return Tuple{Iface{}, e}
+			}
+			data, _ := ex.readAll(fr, res[0])
+			trusted := ex.getField(ls, lsT, "TrustedStorage").(*Term)
+			lnk := args[2].(Iface)
+			if !ex.branch(trusted, "trusted-storage") {
+				if !ex.linkMatches(fr, lnk, data) {
+					return Tuple{Iface{}, ex.newErrorString("hash mismatch")}
+				}
+			}
+			n := &nativeObj{kind: "ipld.Node(opaque)", state: &rawNode{data: data, lnk: lnk}, methods: map[string]func(ex *Exec, args []Value) Value{}}
+			return Tuple{nativeIface(n), Iface{}}
+		})
 		p.reg(ipld+"/codec/dagcbor.Encode", encode)
 		p.reg(ipld+"/codec/dagjson.Encode", encode)
 		p.reg(ipld+"/codec/dagcbor.Decode", decode(false))
 		p.reg(ipld+"/codec/dagjson.Decode", decode(false))
 	})
+}
+
+type rawNode struct {
+	data []*Term
+	lnk  Iface
+}
+
+// linkMatches: does data hash to the CID in lnk (per the CID's own prefix)?
+func (ex *Exec) linkMatches(fr *Frame, lnk Iface, data []*Term) bool {
+	ls, ok := lnk.v.(Struct)
+	if !ok {
+		ex.unsupported("link of dynamic type %v", lnk.t)
+	}
+	c := ls[0]
+	cidT := ex.p.namedType("github.com/ipfs/go-cid", "Cid")
+	prefixFn := ex.findMethod(cidT, "Prefix")
+	pfx := ex.callSSA(fr, fr.callPos, prefixFn, []Value{c}, nil)
+	pfxT := ex.p.namedType("github.com/ipfs/go-cid", "Prefix")
+	sumFn := ex.findMethod(pfxT, "Sum")
+	res := ex.callSSA(fr, fr.callPos, sumFn, []Value{pfx, termsToValues(data)}, nil).(Tuple)
+	if e := res[1].(Iface); e.t != nil {
+		return false
+	}
+	return ex.branch(ex.equals(cidT, res[0], c), "link-hash-matches")
 }
